@@ -250,3 +250,9 @@ n('entries-copy-via-local', 'src/treespec/treespec.cpp', [
 # by running tests/test_ops.py, tests/integration, test_dataclasses/functools/registry/
 # prefix_errors/accessor/typing/utils on the renamed tree (59303 passed)
 N.append({'id': 'py-rename-all-locals', 'generator': 'rename-python-locals', 'file': None, 'edits': []})
+
+# generated: every local variable / structured binding of every engine function renamed (2580
+# occurrences in 17 files, see rename_cxx_locals.py); the renamed tree was built with g++ and passed
+# tests/test_treespec.py, test_registry.py, test_prefix_errors.py, test_accessor.py, test_typing.py
+# (31829 passed)
+N.append({'id': 'cxx-rename-all-locals', 'generator': 'rename-cxx-locals', 'file': None, 'edits': []})
